@@ -248,6 +248,11 @@ func TypesEqual(a, b Type) bool {
 	a = GetUnderlyingType(a)
 	b = GetUnderlyingType(b)
 
+	// the underlying type of a single-case union is its case, which is nil for `[null]`
+	if a == nil || b == nil {
+		return a == nil && b == nil
+	}
+
 	switch ta := a.(type) {
 	case *SimpleType:
 		tb, ok := b.(*SimpleType)
